@@ -130,7 +130,7 @@ class Ctx:
             if raw is None:
                 errs.append((n, info.get("error", "")))
             else:
-                self.facts[n] = factsmod.Facts(raw)
+                self.facts[n] = canonical_facts(raw)
         return errs
 
     def main(self):
@@ -147,6 +147,23 @@ class Ctx:
             mk = make_args(F, path) if make_args else absint.default_args(F, path)
             self._paths[key] = absint.explore(F, path, mk, opts)
         return self._paths[key]
+
+
+def canonical_facts(raw):
+    """fact base with private fields / variants renamed to their role names (pt/canon.py)"""
+    from . import canon
+    from .rules import setops
+    canon.apply(raw, canon.field_roles(raw), canon.viewloc_roles(raw))
+    F = factsmod.Facts(raw)
+    try:
+        ren, enums = setops.discover(F)
+    except Exception:
+        ren, enums = {}, {}
+    setops.bind_enums(enums)
+    if ren:
+        canon.apply(raw, {}, ren)
+        F = factsmod.Facts(raw)
+    return F
 
 
 _WORK = {}
